@@ -457,6 +457,14 @@ def check_C14(chk):
         env["VERIF_EVENTS"] = "1"
         sessions.append((sc, env))
     # the three historical schedules, replayed with the schedule points stretched
+    # a timed go that ends long before its timer, then an unlimited search that must stay silent until `stop`
+    KIWI = "position fen r3k2r/p1ppqpb1/bn2pnp1/3PN3/1p2P3/2N2Q1p/PPPBBPPP/R3K2R w KQkq - 0 1"
+    for first in ("go depth 1 movetime 500", "go movetime 500"):
+        sc = [(KIWI, "pos1", 0), (first, "go1", 0)]
+        if "depth" not in first:
+            sc.append(("stop", "stop", 60))
+        sc += [("wait", "wait", 0), (KIWI, "pos1", 0), ("go infinite", "go0", 0), ("isready", "isready", 900), ("stop", "stop", 0)]
+        sessions.append((sc, {"VERIF_EVENTS": "1"}))
     sessions.append(([("position startpos", "pos1", 0), ("go movetime 1", "go1", 0), ("isready", "isready", 300)], {"VERIF_SLEEP_BEFORE_FLAG_RAISE": "120", "VERIF_EVENTS": "1"}))
     sessions.append(([("position startpos", "pos1", 0), ("go depth 2", "go0", 0), ("position startpos", "pos1", 150), ("go depth 1", "go0", 0)], {"VERIF_SLEEP_AFTER_BESTMOVE": "600", "VERIF_EVENTS": "1"}))
     sessions.append(([("position startpos", "pos1", 0), ("go movetime 1", "go1", 0), ("ucinewgame", "newgame", 60), ("isready", "isready", 0)], {"VERIF_SLEEP_SEARCH_THREAD_START": "300", "VERIF_EVENTS": "1"}))
@@ -497,6 +505,20 @@ def check_C14(chk):
             bad = "%d searches were started but %d bestmove lines were printed" % (started, nb)
         elif tokens.count("I:isready") != tokens.count("O:readyok"):
             bad = "%d isready commands but %d readyok answers" % (tokens.count("I:isready"), tokens.count("O:readyok"))
+        else:
+            # an unlimited search of a rich middlegame position never ends by itself: its bestmove must come after a stop.
+            # Inputs are pipelined, so answers are matched by count: before the stop that follows the n-th go (an unlimited
+            # one) at most n-1 bestmoves may have been printed. Only sessions without refused commands are judged.
+            cmds = [c for c, _, _ in sc]
+            ti = [k for k, t in enumerate(tokens) if t.startswith("I:")]
+            if "O:busy" not in tokens and "O:nogame" not in tokens:
+                for n_cmd, c in enumerate(cmds):
+                    if c == "go infinite" and n_cmd > 0 and "r3k2r/p1ppqpb1" in cmds[n_cmd - 1] and n_cmd < len(ti):
+                        gos_before = sum(1 for x in cmds[:n_cmd] if x.startswith("go"))
+                        k0 = ti[n_cmd]
+                        nxt_stop = next((k for k in range(k0 + 1, len(tokens)) if tokens[k] in ("I:stop", "I:newgame", "I:quit")), len(tokens))
+                        if tokens[:nxt_stop].count("O:bestmove") > gos_before:
+                            bad = "go infinite on a middlegame position was answered with bestmove before any stop was sent (something else cleared its running flag)"
         if bad and nfail < 5:
             nfail += 1
             chk.violation(bad, {"commands": [c for c, _, _ in sc], "env": {k: v for k, v in env.items() if k.startswith("VERIF")},
@@ -577,13 +599,20 @@ def check_C15(chk):
     # (c) the longest game the interface accepts (the guard is 400 states) followed by deep searches in a fortress
     shuffle = ["e1d1", "e8d8", "d1e1", "d8e8"]
     long_lines = ["# long", "cleartable", "new 4k3/8/p1p1p1p1/PpPpPpPp/1P1P1P1P/8/8/4K3 w - - 0 1"]
-    for k in range(398):
+    guard = 400
+    try:
+        m = re.search(r"GAME_LENGTH_GUARD : Z := (\d+)", open(os.path.join(lib.ROOT, "coq", "Gen", "Consts.v")).read())
+        guard = int(m.group(1))
+    except Exception:
+        pass
+    nlong = max(10, min(guard, 1100) - 2)          # the longest game the interface accepts has guard-1 states
+    for k in range(nlong):
         long_lines.append("hist " + shuffle[k % 4])
     long_lines += ["obs", "search 0 %d 0" % (150000 if chk.tier == "quick" else 3000000)]
     blocks.append(long_lines)
     long2 = ["# long2", "cleartable", "new 7k/8/8/8/8/8/8/K7 w - - 0 1"]
     sh2 = ["a1b1", "h8g8", "b1a1", "g8h8"]
-    for k in range(398):
+    for k in range(nlong):
         long2.append("hist " + sh2[k % 4])
     long2 += ["obs", "search 0 %d 0" % (150000 if chk.tier == "quick" else 3000000)]
     blocks.append(long2)
